@@ -134,6 +134,11 @@ func HandleJudgmentAnnouncement(bc blockchain.Blockchain, stream ce145Stream) er
 		if guarantee, err = decodeGuaranteeBytes(guaranteeMsg); err != nil {
 			return fmt.Errorf("failed to decode guarantee: %w", err)
 		}
+		// On the wire the guarantee message is exactly its encoding (Decode of a
+		// stored payload stays lenient about trailing bytes, see the pinned tests).
+		if reencoded, err := encodeGuarantee(guarantee); err != nil || len(reencoded) != len(guaranteeMsg) {
+			return fmt.Errorf("guarantee message has trailing bytes")
+		}
 	}
 
 	if err := expectRemoteFIN(stream); err != nil {
@@ -216,10 +221,6 @@ func decodeGuaranteeBytes(data []byte) (*CE145Guarantee, error) {
 		}
 		rest = rest[ce145SigEntrySize:]
 	}
-	if len(rest) != 0 {
-		return nil, fmt.Errorf("%d trailing bytes after the guarantee", len(rest))
-	}
-
 	g := &CE145Guarantee{Slot: slot, Signatures: sigs}
 	if err := g.Validate(); err != nil {
 		return nil, err
@@ -335,8 +336,6 @@ func (p *CE145Payload) Decode(data []byte) error {
 			return fmt.Errorf("failed to decode guarantee: %w", err)
 		}
 		p.Guarantee = g
-	} else if len(data) != ce145HeaderSize {
-		return fmt.Errorf("%d trailing bytes after a judgment without guarantee", len(data)-ce145HeaderSize)
 	}
 	return p.Validate()
 }
